@@ -1,5 +1,38 @@
-import Driver.Proto
+import Driver.Framing
 namespace DriverC01
-/-- stub: property not yet claimed -/
-def handle (_case _obs : List String) : String × String := ("unclaimed", "fail:unclaimed")
+open Proto Framing DriverFraming
+
+/-- C01 verdict.  enc: the concatenated data is exactly the spec framing of the source's
+messages, no chunk is empty, every chunk consists of whole frames.  dec (valid stream cut
+anywhere): exactly the original messages in order, then a clean end. -/
+def handle (case obs : List String) : String × String :=
+  match model case with
+  | none => bad
+  | some m =>
+    let v := match case with
+      | "enc" :: _ =>
+        match parseEncCase case with
+        | none => "fail:bad-case"
+        | some c =>
+          let flag : UInt8 := if c.cfg.comp.isSome then 1 else 0
+          let expected := Spec.Framing.frames ((itemsOf c.evs).map (fun it =>
+            (flag, if c.cfg.comp.isSome then (tableCodec c.tab).cz .gzip it else it)))
+          let ds := obsData obs
+          verdict [("no-panic", !obs.any isBad),
+                   ("bytes-are-spec-framing-of-messages", ds.flatten == expected),
+                   ("no-empty-chunk", ds.all (fun d => !d.isEmpty)),
+                   ("chunks-are-whole-frames", ds.all (fun d => (Spec.Framing.split d).2.isEmpty))]
+      | "dec" :: _ =>
+        match parseDecCase case with
+        | none => "fail:bad-case"
+        | some c =>
+          let (frs, left) := Spec.Framing.split (dataOf c.evs)
+          let msgs := frs.filterMap (payloadMsg c.tab)
+          let rest := (obs.filter (fun t => t ≠ "p")).drop msgs.length
+          verdict [("no-panic", !obs.any isBad),
+                   ("case-is-valid-stream", left.isEmpty && msgs.length == frs.length),
+                   ("messages-in-order", obsMsgs obs == msgs),
+                   ("then-clean-end", !rest.isEmpty && rest.all (fun t => t = "n"))]
+      | _ => "fail:bad-case"
+    (m, v)
 end DriverC01
